@@ -123,6 +123,41 @@ Section SimB.
   Qed.
 End SimB.
 
+Lemma map_acc_link_le {A B} (f : N -> A -> N * B) : forall l s s' ys,
+  (forall s x s' y, f s x = (s', y) -> s <= s') ->
+  map_acc f s l = (s', ys) -> s <= s' /\ Forall2 (fun x y => exists s1 s2, s <= s1 /\ s2 <= s' /\ f s1 x = (s2, y)) l ys.
+Proof.
+  induction l as [|x l IH]; intros s s' ys Hf H; cbn [map_acc] in H.
+  - inversion H; subst. split; [lia | constructor].
+  - destruct (f s x) as [s1 y] eqn:E. destruct (map_acc f s1 l) as [s2 ys'] eqn:Em. inversion H; subst. clear H.
+    pose proof (Hf s x s1 y E) as H1. destruct (IH s1 s' ys' Hf Em) as [H2 H3].
+    split; [lia|]. constructor; [exists s, s1; repeat split; auto; lia|].
+    clear - H3 H1. induction H3 as [|a b l l' (u & v & Hu & Hv & Hfu) _ IH]; constructor; [exists u, v; repeat split; auto; lia | exact IH].
+Qed.
+
+Lemma forall2_snoc_inv {A B} (R : A -> B -> Prop) l x l' : Forall2 R (l ++ [x]) l' ->
+  exists l1 y, l' = l1 ++ [y] /\ Forall2 R l l1 /\ R x y.
+Proof.
+  revert l'; induction l as [|a l IH]; intros l' H; cbn in H.
+  - inversion H as [|? y ? l2 Hxy Hrest]; subst. inversion Hrest; subst. exists [], y. repeat split; auto.
+  - inversion H as [|? b ? l2 Hab Hrest]; subst. destruct (IH _ Hrest) as (l1 & y & -> & H1 & H2). exists (b :: l1), y. repeat split; auto.
+Qed.
+
+Lemma forall2_in_l' {A B} (R : A -> B -> Prop) l l' x : Forall2 R l l' -> In x l -> exists y, In y l' /\ R x y.
+Proof. intros F. induction F as [|a b l l' Hab _ IH]; [intros []|]. intros [<-|H]; [exists b; split; [left; reflexivity | exact Hab] | destruct (IH H) as (y & Hy & Hr); exists y; split; [right; exact Hy | exact Hr]]. Qed.
+
+Lemma forall2_in_r' {A B} (R : A -> B -> Prop) l l' y : Forall2 R l l' -> In y l' -> exists x, In x l /\ R x y.
+Proof. intros F. induction F as [|a b l l' Hab _ IH]; [intros []|]. intros [<-|H]; [exists a; split; [left; reflexivity | exact Hab] | destruct (IH H) as (x & Hx & Hr); exists x; split; [right; exact Hx | exact Hr]]. Qed.
+
+Lemma in_combine_forall2 {A B} (R : A -> B -> Prop) l l' x y : Forall2 R l l' -> In (x, y) (combine l l') -> R x y.
+Proof. intros F. induction F as [|a b l l' Hab _ IH]; cbn; [intros []|]. intros [H|H]; [inversion H; subst; exact Hab | apply IH, H]. Qed.
+
+Lemma forall2_combine_l {A B} (R : A -> B -> Prop) l l' x : Forall2 R l l' -> In x l -> exists y, In (x, y) (combine l l').
+Proof. intros F. induction F as [|a b l l' _ _ IH]; cbn; [intros []|]. intros [<-|H]; [exists b; left; reflexivity | destruct (IH H) as (y & Hy); exists y; right; exact Hy]. Qed.
+
+Lemma forall2_combine_r {A B} (R : A -> B -> Prop) l l' y : Forall2 R l l' -> In y l' -> exists x, In (x, y) (combine l l').
+Proof. intros F. induction F as [|a b l l' _ _ IH]; cbn; [intros []|]. intros [<-|H]; [exists a; left; reflexivity | destruct (IH H) as (x & Hx); exists x; right; exact Hx]. Qed.
+
 (* ---- one rule --------------------------------------------------------------------------------------------------------- *)
 Record rchain_ok (k : N) (rc : chain) : Prop := {
   ro_wf : Forall pat_wf (ch_cons rc);
@@ -257,5 +292,188 @@ Section Rule.
       + intros t Ht Hn (c0 & Hc0 & Ht0). destruct (Rn t Ht Hn) as [H1 _]. rewrite B1 in Hc0. apply in_app_or in Hc0. destruct Hc0 as [Hc0|Hc0].
         * specialize (Htag0 c0 t Hc0 Ht0 Hn). lia.
         * destruct (B3 c0 t Hc0 Ht0 Hn). lia.
+  Qed.
+
+  Lemma chain_inv_ext done k cs cons0 parts ch ch' : ch_name ch' = ch_name ch -> ch_cons ch' = ch_cons ch ->
+    chain_inv done k cs cons0 parts ch -> chain_inv done k cs cons0 parts ch'.
+  Proof.
+    intros En Ec [A B C D E]. constructor; auto.
+    - rewrite Ec. exact B.
+    - rewrite En. exact C.
+    - rewrite En. exact D.
+    - apply (proj2 (represents_mk named ch' _)). rewrite En, Ec. apply (proj1 (represents_mk named ch _)). exact E.
+  Qed.
+
+  (* ---- all components of the rule ------------------------------------------------------------------------------------ *)
+  Variable rep : list (ident * list chain).
+  Variable kstart : N.
+  Hypothesis Hks : kfinal <= kstart.
+  Hypothesis Hcons : Forall2 (Forall2 (fun tc nc => resolve_cons named tp tc = Ok nc)) (r_cons r) (nr_cons nr).
+  Hypothesis Hrep_sound : forall x chs rcx, al_get ident_eqb rep x = Some chs -> In rcx chs ->
+    exists fx, In fx (alts K' S [] (CRef x)) /\ represents named rcx fx /\ rchain_ok kstart rcx.
+  Hypothesis Hrep_complete : forall x, In (CRef x) (r_name r) -> forall fx, In fx (alts K' S [] (CRef x)) ->
+    exists chs rcx, al_get ident_eqb rep x = Some chs /\ In rcx chs /\ represents named rcx fx.
+
+  Definition cpairs : list (list tagcons * list ncons) :=
+    match r_cons r with [] => [([], [])] | _ => combine (r_cons r) (nr_cons nr) end.
+
+  Lemma cpairs_res cs cons0 : In (cs, cons0) cpairs -> Forall2 (fun tc nc => resolve_cons named tp tc = Ok nc) cs cons0.
+  Proof.
+    unfold cpairs. destruct (r_cons r) as [|c0 l] eqn:E.
+    - intros [H|[]]. inversion H; subst. constructor.
+    - intros H. exact (in_combine_forall2 _ _ _ _ _ Hcons H).
+  Qed.
+
+  Lemma cpairs_choices cs : In cs (choices r) <-> exists cons0, In (cs, cons0) cpairs.
+  Proof.
+    unfold choices, cpairs. destruct (r_cons r) as [|c0 l] eqn:E.
+    - split; [intros [<-|[]]; exists []; left; reflexivity | intros (c & [H|[]]); inversion H; left; reflexivity].
+    - split.
+      + intros H. exact (forall2_combine_l _ _ _ _ Hcons H).
+      + intros (c & H). apply in_combine_l in H. exact H.
+  Qed.
+
+  Definition chain0 (cons0 : list ncons) : chain :=
+    {| ch_id := nr_id nr; ch_name := []; ch_cons := cons0; ch_sign := isort str_leb (nr_sign nr) |}.
+
+  Lemma init_chains_cpairs ch : In ch (init_chains nr) <-> exists cs cons0, In (cs, cons0) cpairs /\ ch = chain0 cons0.
+  Proof.
+    unfold init_chains, cpairs, chain0. pose proof Hcons as F. destruct (r_cons r) as [|a la] eqn:E1; destruct (nr_cons nr) as [|b lb] eqn:E2; try solve [inversion F].
+    - split; [intros [<-|[]]; exists [], []; split; [left; reflexivity | reflexivity] | intros (cs & c0 & [H|[]] & ->); inversion H; left; reflexivity].
+    - rewrite in_map_iff. split.
+      + intros (c0 & <- & Hin). destruct (forall2_combine_r _ _ _ _ F Hin) as (cs & Hcs). exists cs, c0. auto.
+      + intros (cs & c0 & Hin & ->). exists c0. split; [reflexivity|]. apply in_combine_r in Hin. exact Hin.
+  Qed.
+
+  Definition PI (done : list comp) (k : N) (cur : list chain) : Prop :=
+    (forall ch, In ch cur -> exists cs cons0 parts, In (cs, cons0) cpairs /\ chain_inv done k cs cons0 parts ch) /\
+    (forall cs cons0 parts, In (cs, cons0) cpairs -> Forall2 (fun c part => In part (alts K' S cs c)) done parts ->
+        exists ch, In ch cur /\ chain_inv done k cs cons0 parts ch).
+
+  Lemma cons_on_filter_named p cs : is_temp_pat p = false ->
+    cons_on p (filter (fun tc => negb (is_temp_pat (tc_pat tc))) cs) = cons_on p cs.
+  Proof.
+    intros Hp. unfold cons_on. induction cs as [|tc cs IH]; [reflexivity|]. cbn [filter].
+    destruct (is_temp_pat (tc_pat tc)) eqn:Et; cbn [negb filter].
+    - destruct (ident_eqb (tc_pat tc) p) eqn:E; [apply ident_eqb_eq in E; congruence | exact IH].
+    - destruct (ident_eqb (tc_pat tc) p); cbn [map]; [f_equal|]; exact IH.
+  Qed.
+
+  Lemma tp_neg_own : tp_neg tp.
+  Proof.
+    intros q l t0 Hl Ht0. destruct (ti_bwd _ _ _ _ _ Htp _ _ _ Hl Ht0) as (j & Hj1 & Hj2 & Hj3).
+    pose proof (forall2_nth _ _ _ Hnum j _ _ Hj1 Hj2) as Hc. cbn in Hc. rewrite Hj3 in Hc. exact Hc.
+  Qed.
+
+  Lemma init_PI : PI [] kstart (init_chains nr).
+  Proof.
+    assert (G : forall cs cons0, In (cs, cons0) cpairs -> chain_inv [] kstart cs cons0 [] (chain0 cons0)).
+    { intros cs cons0 Hin. pose proof (cpairs_res _ _ Hin) as Hres. constructor.
+      - constructor.
+      - exists []. cbn. rewrite app_nil_r. split; [reflexivity|]. split; [constructor | intros c t []].
+      - intros t [].
+      - intros x [].
+      - constructor; cbn [ch_name chain0 mkflat f_comps map concat].
+        + constructor.
+        + intros p t Hp. cbn. rewrite app_nil_r. destruct (Hnt p t Hp) as [Hpt _]. change (Forall2 (optlist_rel named) (cons_on p (filter (fun tc => negb (is_temp_pat (tc_pat tc))) cs)) (opts_for cons0 (Z.of_N t))). rewrite (cons_on_filter_named p cs Hpt).
+          apply (own_named_rel named kfinal Hinj Hnt Hkf tp cs cons0 p t Hres tp_neg_own Hp). }
+    split.
+    - intros ch Hch. apply init_chains_cpairs in Hch. destruct Hch as (cs & cons0 & Hin & ->). exists cs, cons0, []. auto.
+    - intros cs cons0 parts Hin Hp. inversion Hp; subst. eexists. split; [apply init_chains_cpairs; eauto | apply G, Hin].
+  Qed.
+
+  Lemma rename_le kc rc kc' x : rename_temp_tags kc rc = (kc', x) -> kc <= kc'.
+  Proof. destruct x as [rn rcs]. intros H. destruct (rename_temp_tags_spec _ _ _ _ _ H) as (mp & _ & Hle & _). exact Hle. Qed.
+
+  Lemma inline_ref_spec cur s rcx s' g : inline_ref (nr_id nr) cur s rcx = (s', g) ->
+    s <= s' /\
+    Forall2 (fun ch y => exists kc kd rn rcs, s <= kc /\ kd <= s' /\ rename_temp_tags kc rcx = (kd, (rn, rcs)) /\
+                                              ch_name y = ch_name ch ++ rn /\ ch_cons y = ch_cons ch ++ rcs) cur g.
+  Proof.
+    unfold inline_ref. intros Hi.
+    match type of Hi with map_acc ?f _ _ = _ => assert (Hf : forall s0 x s0' y, f s0 x = (s0', y) -> s0 <= s0') end.
+    { intros s0 ch s0' y Hy. destruct (rename_temp_tags s0 rcx) as [k4 [rn rcs]] eqn:Ert. inversion Hy; subst. eapply rename_le; eauto. }
+    destruct (map_acc_link_le _ _ _ _ _ Hf Hi) as [Hle Hin]. split; [exact Hle|]. clear Hi Hf.
+    induction Hin as [|ch y l l' (u & v & Hu & Hv & Hfu) _ IH]; constructor; [|exact IH].
+    destruct (rename_temp_tags u rcx) as [k4 [rn rcs]] eqn:Ert. inversion Hfu; subst.
+    exists u. eexists. exists rn, rcs. split; [exact Hu|]. split; [|split; [exact Ert | split; reflexivity]]. assumption.
+  Qed.
+
+  Lemma comps_sim : forall todo_src todo_num, Forall2 (comp_num named) todo_src todo_num ->
+    forall done ndone cur k cur' k', r_name r = done ++ todo_src -> nr_name nr = ndone ++ todo_num -> length ndone = length done ->
+      PI done k cur -> kstart <= k ->
+      rfold (replicate_comp rep (nr_id nr)) todo_num (cur, k) = Ok (cur', k') ->
+      PI (r_name r) k' cur' /\ k <= k'.
+  Proof.
+    intros todo_src todo_num F. induction F as [|c nc ts tn Hcn _ IH]; intros done ndone cur k cur' k' Es En Hl HPI Hk Hf.
+    - cbn in Hf. inversion Hf; subst. rewrite Es, app_nil_r. split; [exact HPI | lia].
+    - cbn [rfold] in Hf.
+      assert (Hc : nth_error (r_name r) (length done) = Some c) by (rewrite Es, nth_error_app2, Nat.sub_diag by lia; reflexivity).
+      assert (Hnc : nth_error (nr_name nr) (length done) = Some nc) by (rewrite En, <- Hl, nth_error_app2, Nat.sub_diag by lia; reflexivity).
+      destruct (replicate_comp rep (nr_id nr) (cur, k) nc) as [[cur1 kn]|e] eqn:Ec; cbn [bind] in Hf; [|discriminate].
+      assert (Hstep : PI (done ++ [c]) kn cur1 /\ k <= kn).
+      { destruct HPI as [Hs Hcm]. unfold replicate_comp in Ec. cbn [fst snd] in Ec.
+        assert (Hown : forall nc0, nc = nc0 -> (forall y, c <> CRef y) ->
+                  PI (done ++ [c]) k (map (fun ch => {| ch_id := ch_id ch; ch_name := ch_name ch ++ [nc0]; ch_cons := ch_cons ch; ch_sign := ch_sign ch |}) cur)).
+        { intros nc0 <- Hnr. split.
+          + intros ch' Hch'. apply in_map_iff in Hch'. destruct Hch' as (ch & <- & Hch). destruct (Hs ch Hch) as (cs & cons0 & parts & Hin & Hci).
+            exists cs, cons0, (parts ++ [own_part cs c]). split; [exact Hin|].
+            apply (step_own done k cs cons0 parts ch c nc (cpairs_res _ _ Hin)); auto; lia.
+          + intros cs cons0 parts' Hin Hp'. destruct (forall2_snoc_inv _ _ _ _ Hp') as (parts & part & -> & Hp & Hpart).
+            destruct (Hcm cs cons0 parts Hin Hp) as (ch & Hch & Hci).
+            assert (part = own_part cs c).
+            { destruct c as [w|p|y]; [cbn in Hpart; destruct Hpart as [<-|[]]; reflexivity | | exfalso; eapply Hnr; reflexivity].
+              cbn in Hpart |- *. destruct (is_temp_pat p); destruct Hpart as [<-|[]]; reflexivity. }
+            subst part. eexists. split; [apply in_map; exact Hch|].
+            apply (step_own done k cs cons0 parts ch c nc (cpairs_res _ _ Hin)); auto; lia. }
+        destruct nc as [v|t|x].
+        - inversion Ec; subst cur1 kn. split; [|lia]. apply Hown; [reflexivity|]. intros y ->. cbn in Hcn. contradiction.
+        - inversion Ec; subst cur1 kn. split; [|lia]. apply Hown; [reflexivity|]. intros y ->. cbn in Hcn. contradiction.
+        - (* reference *)
+          clear Hown.
+          assert (Ecx : c = CRef x) by (destruct c as [w|p|y]; cbn in Hcn; try contradiction; subst; reflexivity). subst c.
+          destruct (al_get ident_eqb rep x) as [refs|] eqn:Er; [|discriminate].
+          destruct (map_acc (inline_ref (nr_id nr) cur) k refs) as [kk groups] eqn:Em. inversion Ec; subst cur1 kn. clear Ec.
+          assert (Hinl : forall s rc s' g, inline_ref (nr_id nr) cur s rc = (s', g) -> s <= s').
+          { intros s rc s' g Hi. apply (inline_ref_spec _ _ _ _ _ Hi). }
+          destruct (map_acc_link_le _ _ _ _ _ Hinl Em) as [Hkk Hgroups].
+          split; [|exact Hkk].
+          assert (Hpair : forall rcx g,
+                    (exists s1 s2, k <= s1 /\ s2 <= kk /\ inline_ref (nr_id nr) cur s1 rcx = (s2, g)) ->
+                    Forall2 (fun ch y => exists kc kd rn rcs, k <= kc /\ kd <= kk /\ rename_temp_tags kc rcx = (kd, (rn, rcs)) /\
+                                                              ch_name y = ch_name ch ++ rn /\ ch_cons y = ch_cons ch ++ rcs) cur g).
+          { intros rcx g (s1 & s2 & Hs1 & Hs2 & Hi). destruct (inline_ref_spec _ _ _ _ _ Hi) as [_ Hall].
+            eapply forall2_impl; [|exact Hall]. intros ch y _ (kc & kd & rn & rcs & H1 & H2 & H3 & H4 & H5).
+            exists kc, kd, rn, rcs. repeat split; auto; lia. }
+          split.
+          + intros ch' Hch'. apply in_concat in Hch'. destruct Hch' as (g & Hg & Hchg).
+            destruct (forall2_in_r' _ _ _ _ Hgroups Hg) as (rcx & Hrcx & Hlink).
+            pose proof (Hpair rcx g Hlink) as Hall.
+            destruct (forall2_in_r' _ _ _ _ Hall Hchg) as (ch & Hch & (kc & kd & rn & rcs & Hkc & Hkd & Hrn & En' & Ec')).
+            destruct (Hs ch Hch) as (cs & cons0 & parts & Hin & Hci).
+            destruct (Hrep_sound x refs rcx Er Hrcx) as (fx & Hfx & Hrepx & Hokx).
+            destruct (step_ref done k kc cs cons0 parts ch x rcx fx kd rn rcs (cpairs_res _ _ Hin)) as [Hci' _]; auto; try lia.
+            { eapply rchain_ok_mono; eauto. }
+            exists cs, cons0, (parts ++ [fx]). split; [exact Hin|].
+            apply (chain_inv_ext _ _ _ _ _ (app_ref ch rn rcs)); [exact En' | exact Ec' |]. eapply chain_inv_mono; eauto.
+          + intros cs cons0 parts' Hin Hp'. destruct (forall2_snoc_inv _ _ _ _ Hp') as (parts & fx & -> & Hp & Hfx).
+            destruct (Hcm cs cons0 parts Hin Hp) as (ch & Hch & Hci).
+            assert (Hcin : In (CRef x) (r_name r)) by (rewrite Es; apply in_or_app; right; left; reflexivity).
+            destruct (Hrep_complete x Hcin fx Hfx) as (chs & rcx & Hchs & Hrcx & Hrepx). rewrite Er in Hchs. inversion Hchs; subst chs.
+            destruct (Hrep_sound x refs rcx Er Hrcx) as (_ & _ & _ & Hokx).
+            destruct (forall2_in_l' _ _ _ _ Hgroups Hrcx) as (g & Hg & Hlink).
+            pose proof (Hpair rcx g Hlink) as Hall.
+            destruct (forall2_in_l' _ _ _ _ Hall Hch) as (y & Hy & (kc & kd & rn & rcs & Hkc & Hkd & Hrn & En' & Ec')).
+            destruct (step_ref done k kc cs cons0 parts ch x rcx fx kd rn rcs (cpairs_res _ _ Hin)) as [Hci' _]; auto; try lia.
+            { eapply rchain_ok_mono; eauto. }
+            exists y. split; [apply in_concat; exists g; split; [exact Hg | exact Hy]|].
+            apply (chain_inv_ext _ _ _ _ _ (app_ref ch rn rcs)); [exact En' | exact Ec' |]. eapply chain_inv_mono; eauto. }
+      destruct Hstep as [HPI1 Hkn].
+      destruct (IH (done ++ [c]) (ndone ++ [nc]) cur1 kn cur' k') as [H1 H2]; auto.
+      + rewrite <- app_assoc. exact Es.
+      + rewrite <- app_assoc. exact En.
+      + rewrite !app_length. cbn. lia.
+      + lia.
+      + split; [exact H1 | lia].
   Qed.
 End Rule.
